@@ -463,6 +463,41 @@ def emit_all(data):
            "namespace Barril.Gen\nopen Barril\n/-- compact rows of the default database, same order as `poscUnits` -/\n"
            "def poscC : List CRow := %s\nend Barril.Gen\n" % " ++ ".join(cnames))
     c06_chunks = list(zip(cnames, cmods_c))
+    # ... a balanced search tree over the same rows (by symbol code) and the base row of every quantity type: an
+    # index for the kernel only, proved equal to the list lookups (Barril/Proofs/CompoundIndexLemmas.lean)
+    by_sym = sorted(zip((sym(r["sym"]) for r in data["posc"]["units"]), crows))
+    SUB_DEPTH = 4
+    subtrees = []
+
+    def build(lo, hi, depth):
+        if lo >= hi:
+            return "CTree.leaf"
+        if depth == SUB_DEPTH:
+            name = "poscT%02d" % len(subtrees)
+            subtrees.append((name, build(lo, hi, depth + 1)))
+            return name
+        mid = (lo + hi) // 2
+        return "(CTree.node %s %s %s)" % (build(lo, mid, depth + 1), by_sym[mid][1], build(mid + 1, hi, depth + 1))
+
+    top = build(0, len(by_sym), 0)
+    for name, body in subtrees:
+        em.add("PoscT%s.lean" % name[5:],
+               "import Barril.Model.CompoundIndex\nset_option maxRecDepth 100000\nnamespace Barril.Gen\nopen Barril\n"
+               "def %s : CTree := %s\nend Barril.Gen\n" % (name, body))
+    em.add("PoscTree.lean", "".join("import Barril.Gen.PoscT%s\n" % n[5:] for n, _b in subtrees) +
+           "set_option maxRecDepth 100000\nnamespace Barril.Gen\nopen Barril\n"
+           "/-- search tree over the rows of `poscC`, by symbol code -/\ndef poscTree : CTree := %s\nend Barril.Gen\n" % top)
+    c06_subtrees = [n for n, _b in subtrees]
+    bases, seen_qt = [], set()
+    for r, cr in zip(data["posc"]["units"], crows):
+        if r["qtype"] not in seen_qt:
+            seen_qt.add(r["qtype"])
+            bases.append("(%d, %s)" % (sym(r["qtype"]), cr))
+    bnames, bmods = em.chunked("poscB", "PoscB", "(Sym × CRow)", bases, imports="import Barril.Model.Compound\n")
+    em.add("PoscBases.lean", "".join("import Barril.Gen.%s\n" % m for m in bmods) +
+           "namespace Barril.Gen\nopen Barril\n/-- quantity type ↦ its first-listed row -/\n"
+           "def poscBases : List (Sym × CRow) := %s\nend Barril.Gen\n" % " ++ ".join(bnames))
+    c06_bases = list(zip(bnames, bmods))
     em.add("Dbs.lean", "".join("import %s\n" % m for m in dbs_imports) +
            "namespace Barril.Gen\nopen Barril\n" + "\n".join(dbs_defs) + "\nend Barril.Gen\n")
 
@@ -516,12 +551,18 @@ def emit_all(data):
                    "theorem %s : %s.map CRow.core = %s.map UnitRow.core := by decide +kernel\nend Barril.Gen\n" % (km, um, tn, kn, un))
             core_thms.append(tn)
             core_mods.append(mod)
-            tn = "%s_c06" % kn
             mod = "ThmC06%s" % km
             em.add(mod + ".lean",
-                   "import Barril.Gen.PoscCompact\nimport Barril.Gen.KnownBad\nset_option maxRecDepth 100000\nnamespace Barril.Gen\nopen Barril\n"
-                   "theorem %s : %s.all (compoundOkOrKnown poscC c06KnownBad) = true := by decide +kernel\nend Barril.Gen\n" % (tn, kn))
-            c06_thms.append(tn)
+                   "import Barril.Gen.PoscTree\nimport Barril.Gen.PoscBases\nimport Barril.Gen.KnownBad\nimport Barril.Gen.%s\n"
+                   "set_option maxRecDepth 100000\nnamespace Barril.Gen\nopen Barril\n"
+                   "/-- every row of the chunk is found in the index -/\n"
+                   "theorem %s_idx : %s.all (fun c => poscTree.find c.sym == some c) = true := by decide +kernel\n"
+                   "/-- the quantity type of every row has an entry in the base index -/\n"
+                   "theorem %s_bas : %s.all (fun c => (lookB c.qtype poscBases).isSome) = true := by decide +kernel\n"
+                   "/-- the C06 row predicate, evaluated through the index -/\n"
+                   "theorem %s_c06 : %s.all (compoundOkOrKnownT poscTree poscBases c06KnownBad) = true := by decide +kernel\n"
+                   "end Barril.Gen\n" % (km, kn, kn, kn, kn, kn, kn))
+            c06_thms.append(kn)
             c06_mods.append(mod)
         em.add("ThmCorePosc.lean",
                "".join("import Barril.Gen.%s\n" % m for m in core_mods) + "import Barril.Gen.PoscCompact\nimport Barril.Gen.PoscUnits\n"
@@ -529,15 +570,55 @@ def emit_all(data):
                "/-- the compact table is the default database's unit table, row by row -/\n"
                "theorem poscC_core : poscC.map CRow.core = poscUnits.map UnitRow.core := by\n"
                "  simp only [poscC, poscUnits, List.map_append, %s]\nend Barril.Gen\n" % ", ".join(core_thms))
+        # everything stored in the index is a row of the table (per subtree, then the inner nodes)
+        sub_mods = []
+        for tn_ in c06_subtrees:
+            mod = "ThmC06Sub%s" % tn_[5:]
+            em.add(mod + ".lean",
+                   "import Barril.Gen.PoscTree\nimport Barril.Gen.PoscCompact\nset_option maxRecDepth 100000\n"
+                   "namespace Barril.Gen\nopen Barril\n"
+                   "theorem %s_back : %s.toList.all (fun c => lookL c.sym poscC == some c) = true := by decide +kernel\n"
+                   "end Barril.Gen\n" % (tn_, tn_))
+            sub_mods.append(mod)
+        base_mods = []
+        for bn, bm in c06_bases:
+            mod = "ThmC06%s" % bm
+            em.add(mod + ".lean",
+                   "import Barril.Gen.PoscBases\nimport Barril.Gen.PoscCompact\nset_option maxRecDepth 100000\n"
+                   "namespace Barril.Gen\nopen Barril\n"
+                   "theorem %s_base : %s.all (fun p => baseL p.1 poscC == some p.2) = true := by decide +kernel\n"
+                   "end Barril.Gen\n" % (bn, bn))
+            base_mods.append(mod)
         hyps = " ".join("(h%d : %s.all P = true)" % (i, kn) for i, (kn, _km) in enumerate(c06_chunks))
         em.add("ThmC06Posc.lean",
-               "".join("import Barril.Gen.%s\n" % m for m in c06_mods) +
-               "set_option linter.unusedSimpArgs false\nnamespace Barril.Gen\nopen Barril\n"
+               "".join("import Barril.Gen.%s\n" % m for m in c06_mods + sub_mods + base_mods) +
+               "import Barril.Proofs.CompoundIndexLemmas\n"
+               "set_option linter.unusedSimpArgs false\nset_option maxRecDepth 100000\nnamespace Barril.Gen\nopen Barril\n"
                "theorem poscC_all_of_chunks (P : CRow → Bool) %s : poscC.all P = true := by\n"
                "  simp only [poscC, List.all_append, %s, Bool.and_self]\n"
+               "/-- every row of the table is found in the index -/\n"
+               "theorem poscTree_complete : poscC.all (fun c => poscTree.find c.sym == some c) = true :=\n"
+               "  poscC_all_of_chunks _ %s\n"
+               "/-- everything stored in the index is a row of the table -/\n"
+               "theorem poscTree_sound : poscTree.toList.all (fun c => lookL c.sym poscC == some c) = true := by\n"
+               "  simp only [poscTree, CTree.toList, List.all_append, List.all_cons, List.all_nil, %s, Bool.true_and, Bool.and_true]\n"
+               "  decide +kernel\n"
+               "theorem poscBases_sound : poscBases.all (fun p => baseL p.1 poscC == some p.2) = true := by\n"
+               "  simp only [poscBases, List.all_append, %s, Bool.and_self]\n"
+               "theorem poscBases_complete : poscC.all (fun c => (lookB c.qtype poscBases).isSome) = true :=\n"
+               "  poscC_all_of_chunks _ %s\n"
+               "theorem poscC_all_c06_indexed : poscC.all (compoundOkOrKnownT poscTree poscBases c06KnownBad) = true :=\n"
+               "  poscC_all_of_chunks _ %s\n"
+               "/-- the C06 table theorem, stated through the plain list lookups -/\n"
                "theorem poscC_all_c06 : poscC.all (compoundOkOrKnown poscC c06KnownBad) = true :=\n"
-               "  poscC_all_of_chunks _ %s\nend Barril.Gen\n" % (
-                   hyps, ", ".join("h%d" % i for i in range(len(c06_chunks))), " ".join(c06_thms)))
+               "  compoundOkOrKnown_of_index poscTree_complete poscTree_sound poscBases_sound poscBases_complete\n"
+               "    poscC_all_c06_indexed\nend Barril.Gen\n" % (
+                   hyps, ", ".join("h%d" % i for i in range(len(c06_chunks))),
+                   " ".join(k + "_idx" for k in c06_thms),
+                   ", ".join(t + "_back" for t in c06_subtrees),
+                   ", ".join(bn + "_base" for bn, _bm in c06_bases),
+                   " ".join(k + "_bas" for k in c06_thms),
+                   " ".join(k + "_c06" for k in c06_thms)))
     em.add("All.lean", "".join("import Barril.Gen.%s\n" % n[:-5].replace("/", ".") for n in sorted(em.files)
                                 if n != "All.lean"))
     return em
